@@ -1,10 +1,11 @@
-"""C02 (see DESIGN.md section 6)."""
+"""C02 -- links are applied exactly where their definition matches (see DESIGN.md section 6 and 11)."""
 from vlib.framework import PUnit, LUnit, BUnit
 from bounded import b_links as B
+from contracts import links as L
 
-P_UNITS = []
+P_UNITS = [PUnit("link-atoms-identify-one-atom", L.CONTRACTS, L.REG)]
 
 
 def build(tier, seed):
     units = list(P_UNITS) + [u for u in B.UNITS if u.name in "c02-link-instances".split()]
-    return {"units": units, "level": "other", "notes": "bounded stand-in (executable contracts on the real functions); see evidence units"}
+    return {"units": units, "level": "other", "notes": "pyvc contracts on the atom-matching step + bounded stand-in for ApplyLinks as a whole"}
